@@ -11,13 +11,24 @@ DA = 'simgrid::mc::DependencyAction'
 EXPLANATION = ('The compile-time dependency LUT (read from clang\'s constant evaluator) is checked against the dispatcher: equal actors '
                'are dependent, ANY transitions are unwrapped, operands are ordered so that only the upper triangle is read; for each of '
                'the 465 cells (i <= j) the classes to which t1/t2 are cast in the selected case are the classes deserialize_transition '
-               'builds for types i/j; every action reachable on the diagonal is invariant under swapping t1 and t2.')
+               'builds for types i/j; every action reachable on the diagonal is invariant under swapping t1 and t2; every conditional case is tabulated as a '
+               'boolean function of its comparisons (like kinds, t1 against t2, monotone, timeouts sufficient); six semantically conflicting pairs are not ALWAYS_INDEP.')
 
 
 # queueing requests that the checker declares independent on purpose (frozen, one reason each)
 R5_EXCEPT = {'BARRIER_ASYNC_LOCK': 'arrivals at a barrier commute: everybody is released at once, only the number of arrivals matters',
              'CONDVAR_ASYNC_LOCK': 'two waits on one condition variable need the mutex in turn; no failing interleaving could be exhibited '
                                    '(tools/triage/c39_condvar_probe.cpp: reductions none and dpor agree), so the declared independence is left alone'}
+
+# pairs whose two orders differ when they name the same object: by the semantics of the object, not of this code (frozen, one reason each)
+MUST_CONFLICT = {
+    ('MUTEX_TRYLOCK', 'MUTEX_TRYLOCK'): 'the first try-lock of a free mutex succeeds and makes the second fail',
+    ('MUTEX_ASYNC_LOCK', 'MUTEX_TRYLOCK'): 'a try-lock succeeds before the lock request of another actor on a free mutex and fails after it',
+    ('MUTEX_TRYLOCK', 'MUTEX_UNLOCK'): 'a try-lock fails before the owner unlocks and succeeds after',
+    ('MUTEX_UNLOCK', 'MUTEX_WAIT'): 'the unlock hands the mutex to the next waiter: it enables that wait',
+    ('MUTEX_TEST', 'MUTEX_UNLOCK'): 'the test of a queued lock request answers no before the unlock and yes after',
+    ('SEM_UNLOCK', 'SEM_WAIT'): 'the release grants the pending acquisition: it enables that wait',
+}
 
 
 def canon(t):
@@ -256,4 +267,158 @@ def run(ctx):
         ctx.check(npaths >= 1 and not problems, 'R5', '%s x %s -> %s: independent only for different objects' % (nm, nm, aname.get(a, a)), where(dd), '; '.join(problems[:2]) +
                   (': both requests join the waiting queue of the same object, so their order decides who is served first' if problems else ''), key='R5|%s|same queue' % nm)
     ctx.require(n5 >= 4, 'R5', 'only %d queueing transition types found' % n5)
+
+    # ---- R6 the conditional cases, read as boolean functions of their comparisons ------------------------------------------------------------------------
+    ctx.rule('R6', 'each conditional case: every comparison relates an attribute of t1 to an attribute of the same kind of t2; the answer can only go from independent to dependent when two '
+             'compared objects become the same one, or when a timeout is present; a consulted timeout is by itself a reason for dependence', 15)
+    ACTOR = {'aid', 'target', 'child', 'sender', 'receiver', 'issuer'}
+
+    def strip(t):
+        while isinstance(t, tuple) and t and ((t[0] in ('cast', 'conv') and len(t) >= 3 and not (t[2] in (T1, T2))) or t[0] == 'truthy'):
+            t = t[1] if t[0] == 'truthy' else t[2]
+        return t
+
+    def kind_of(t):
+        """what an id-valued term designates: the last getter or member on the chain"""
+        t = strip(t)
+        nm = None
+        if t[0] == 'call' and isinstance(t[1], str):
+            nm = t[1].rsplit('::', 1)[-1]
+        elif t[0] == 'field':
+            nm = t[2].rsplit('::', 1)[-1]
+        if nm is None:
+            return None
+        nm = nm.strip('_')
+        if nm.startswith('get_'):
+            nm = nm[4:]
+        return 'actor' if nm in ACTOR else nm
+
+    def roots(t):
+        return set(x for x in ex.subterms(t) if x in (T1, T2))
+
+    def leaves(t, out):
+        """atoms of a boolean term: (key, is_eq)"""
+        t = strip(t)
+        if t[0] == 'bin' and t[1] in ('||', '&&'):
+            leaves(t[2], out)
+            leaves(t[3], out)
+            return
+        if t[0] in ('bool', 'int'):
+            return
+        a, _ = ex.atom(t)
+        a = canon(subst(subst(a, lmap), lmap))
+        out.add(a)
+
+    def ev(t, asg):
+        t = strip(t)
+        if t[0] == 'bool':
+            return bool(t[1])
+        if t[0] == 'int':
+            return t[1] != 0
+        if t[0] == 'bin' and t[1] == '||':
+            return ev(t[2], asg) or ev(t[3], asg)
+        if t[0] == 'bin' and t[1] == '&&':
+            return ev(t[2], asg) and ev(t[3], asg)
+        a, p0 = ex.atom(t)
+        a = canon(subst(subst(a, lmap), lmap))
+        return asg[a] == p0
+    n6 = 0
+    same_object_answer = {}   # action name -> answer when every compared object (not actor) is the same one and no timeout is set
+    for av, info in sorted(case_info.items()):
+        nm = str(aname.get(av, av))
+        if info['panic'] or info.get('virt') or not nm.startswith('EVAL_'):
+            continue
+        sbs = [sb for (sw_, succs) in v.case_blocks() for lab, sb in succs if lab and lab.get('k') == 'case' and lab['v'] == av and sb is not None]
+        pths = []
+        atoms = set()
+        for p in v.paths(start=sbs[0]):
+            if p.exit in ('noreturn', 'cut', 'throw'):
+                continue
+            evs = v.path_events(p)
+            conds = []
+            for e in evs:
+                if e.kind == 'branch':
+                    conds.append((e.atom, e.pol))
+                    leaves(e.atom, atoms)
+            rets = [e for e in evs if e.kind == 'return' and e.val is not None]
+            if not rets:
+                continue
+            leaves(rets[-1].val, atoms)
+            pths.append((conds, rets[-1]))
+        atoms = sorted(atoms, key=repr)
+        if not atoms or any(x[0] == 'call' and isinstance(x[1], str) and x[1].endswith('::depends') for a in atoms for x in ex.subterms(a)):
+            continue      # a constant answer, or one delegated to the class (R4 decides its symmetry)
+        if len(atoms) > 10:
+            ctx.unrecognised('R6', '%s: %d comparisons, too many to enumerate' % (nm, len(atoms)))
+            continue
+        n6 += 1
+        # kinds and sides
+        bad = []
+        up = []        # atoms in which the answer must be monotone
+        touts = []
+        for a in atoms:
+            if a[0] == 'bin' and a[1] == '==':
+                ka, kb = kind_of(a[2]), kind_of(a[3])
+                ra, rb = roots(a[2]), roots(a[3])
+                if ka is None or kb is None or not ra or not rb:
+                    ctx.unrecognised('R6', '%s: comparison %s not understood' % (nm, ex.pretty(a)))
+                    continue
+                if ka != kb:
+                    bad.append('%s compares a %s with a %s: the two identifiers come from different counters' % (ex.pretty(a)[:110], ka, kb))
+                elif ra == rb:
+                    bad.append('%s compares a transition with itself' % ex.pretty(a)[:110])
+                up.append(a)
+            elif a[0] == 'truthy' and kind_of(a[1]) == 'timeout':
+                up.append(a)
+                touts.append(a)
+            else:
+                ctx.unrecognised('R6', '%s: test %s not understood' % (nm, ex.pretty(a)))
+        ctx.check(not bad, 'R6', '%s: comparisons relate like attributes of t1 and t2' % nm, where(dd, pths[0][1].line if pths else None), '; '.join(bad) or '%d comparison(s)' % len(atoms), key='R6|%s|kinds' % nm)
+        # the boolean function
+        table = {}
+        amb = False
+        for bits in range(1 << len(atoms)):
+            asg = {a: bool(bits >> k & 1) for k, a in enumerate(atoms)}
+            res = set()
+            for conds, r in pths:
+                if all(ev(a, asg) == pol for a, pol in conds):
+                    res.add(ev(r.val, asg))
+            if len(res) != 1:
+                amb = amb or len(res) > 1
+                continue
+            table[bits] = res.pop()
+        if amb:
+            ctx.unrecognised('R6', '%s: two paths give different answers under the same comparisons' % nm)
+            continue
+        eqbits = sum(1 << k for k, a in enumerate(atoms) if a[0] == 'bin' and a[1] == '==' and kind_of(a[2]) != 'actor')
+        same_object_answer[nm] = table.get(eqbits)
+        bad = []
+        for k, a in enumerate(atoms):
+            if a not in up:
+                continue
+            for bits, r in table.items():
+                if not bits >> k & 1 and r and table.get(bits | 1 << k) is False:
+                    bad.append('with %s the pair is declared independent, without it dependent' % (ex.pretty(a)[:110] + (' true' if a in touts else '')))
+                    break
+            if a in touts and any(bits >> k & 1 and not r for bits, r in table.items()):
+                bad.append('%s is consulted but does not suffice for dependence (the other cases treat a timeout as dependent: it is outside the independence theorem)' % ex.pretty(a)[:110])
+        ctx.check(not bad, 'R6', '%s: identical objects or a timeout never turn a dependent pair into an independent one' % nm, where(dd, pths[0][1].line if pths else None),
+                  '; '.join(bad[:3]) or 'monotone over %d assignment(s) of %d comparison(s)' % (len(table), len(atoms)), key='R6|%s|monotone' % nm)
+    ctx.require(n6 >= 15, 'R6', 'only %d conditional cases recognised' % n6)
+
+    # ---- R7 pairs that conflict by the semantics of the object: never unconditionally independent, and dependent on one object ------------------------------------
+    ctx.rule('R7', 'pairs whose outcome depends on their order when they name the same object (frozen list, one reason each) are not ALWAYS_INDEP, and their case answers '
+             '"dependent" when every compared object is the same one', len(MUST_CONFLICT))
+    for (x, y), why in sorted(MUST_CONFLICT.items()):
+        if x not in types or y not in types:
+            raise AnalysisBroken('transition type %s or %s not found' % (x, y))
+        i, j = sorted((types[x], types[y]))
+        a = rows[i][j]
+        an = str(aname.get(a, a))
+        ok = an != 'ALWAYS_INDEP'
+        detail = 'action %s' % an
+        if ok and an in same_object_answer:
+            ok = same_object_answer[an] is True
+            detail += '; on one object it answers %s' % ('dependent' if same_object_answer[an] else 'independent')
+        ctx.check(ok, 'R7', '%s x %s is not unconditionally independent' % (x, y), where(dd), detail + ' (%s)' % why, key='R7|%s x %s|must conflict' % (x, y))
     return EXPLANATION
